@@ -74,7 +74,7 @@ func c19GenRace(rt *rapid.T) c19RaceCase {
 // c19AllowedCovert picks a covert literal the configuration's policy lets through.
 func c19AllowedCovert(x *c19Ctx, pol *c19Policy) string {
 	for _, s := range []string{"203.0.113.200", "198.18.77.1", "8.8.8.8", "203.0.113.70", "192.0.2.200", "2001:db8:ffff::9", "127.0.0.1", "10.9.9.9"} {
-		ip := net.ParseIP(s)
+		ip := c19Norm(net.ParseIP(s))
 		if ref, det := pol.covertRefused(ip, x.local); det && !ref {
 			return c19HostPort(ip)
 		}
